@@ -99,6 +99,11 @@ fn render(doc: &Value, dir: &str, fmt: usize) -> Value {
         "file_append_wrong_type" => Some(json!({"kind": "file", "path": path, "append": "yes"})),
         "enc_unknown_key" => Some(json!({"kind": "file", "path": path, "encoder": {"kind": "pattern", "patern": "x"}})),
         "enc_unknown_kind" => Some(json!({"kind": "file", "path": path, "encoder": {"kind": "xml"}})),
+        "enc_kind_wrong_type" => Some(json!({"kind": "file", "path": path, "encoder": {"kind": 7}})),
+        "enc_kind_null" => Some(json!({"kind": "file", "path": path, "encoder": {"kind": [ "json" ]}})),
+        "policy_kind_wrong_type" => Some(roll(json!({"kind": 7, "trigger": size, "roller": del}))),
+        "trigger_kind_wrong_type" => Some(roll(json!({"trigger": {"kind": true, "limit": 10}, "roller": del}))),
+        "roller_kind_wrong_type" => Some(roll(json!({"trigger": size, "roller": {"kind": 3}}))),
         "policy_unknown_key" => Some(roll(json!({"trigger": size, "roller": del, "extra": 1}))),
         "policy_unknown_kind" => Some(roll(json!({"kind": "simple", "trigger": size, "roller": del}))),
         "trigger_unknown_key" => Some(roll(json!({"trigger": {"kind": "size", "limit": 10, "extra": 1}, "roller": del}))),
@@ -122,9 +127,19 @@ fn render(doc: &Value, dir: &str, fmt: usize) -> Value {
         if dv == "appender_no_kind" {
             x.as_object_mut().unwrap().remove("kind");
         }
+        if dv == "appender_kind_wrong_type" {
+            x["kind"] = json!(7);
+        }
+        if dv == "filter_kind_wrong_type" {
+            x["filters"] = json!([{"kind": 5, "level": "warn"}]);
+        }
         apps.insert("x".into(), x);
     } else if dv == "appender_no_kind" {
         apps.insert("x".into(), json!({"path": path}));
+    } else if dv == "appender_kind_wrong_type" {
+        apps.insert("x".into(), json!({"kind": 7, "path": path}));
+    } else if dv == "filter_kind_wrong_type" {
+        apps.insert("x".into(), json!({"kind": "file", "path": path, "filters": [{"kind": 5, "level": "warn"}]}));
     }
     top.insert("appenders".into(), Value::Object(apps));
     // loggers
